@@ -18,6 +18,9 @@ use super::{LockGuard, RetryingLockCollection};
 fn contains_duplicates<L: Lockable>(data: L) -> bool {
 	let mut locks = Vec::new();
 	data.get_ptrs(&mut locks);
+	// A zero-sized value (such as an empty owned collection) contains no lock,
+	// and distinct zero-sized values may share an address, so they never count
+	locks.retain(|l| std::mem::size_of_val(*l) != 0);
 	// cast to *const () so that the v-table pointers are not used for hashing
 	let locks = locks.into_iter().map(|l| (&raw const *l).cast::<()>());
 
